@@ -19,7 +19,7 @@ type memCase struct {
 	P *gen.Prof
 }
 
-var memOpts = gen.Opts{Alpha: gen.Hostile, MaxSamples: 10, MaxDepth: 5, MaxLines: 4, MinTypes: 0, MaxTypes: 4, Extreme: true, AnyIDs: true, Unused: true,
+var memOpts = gen.Opts{OddTypes: true, Alpha: gen.Hostile, MaxSamples: 10, MaxDepth: 5, MaxLines: 4, MinTypes: 0, MaxTypes: 4, Extreme: true, AnyIDs: true, Unused: true,
 	Labels: true, NumLabels: true, EmptyLabel: true, EmptyStacks: true, NoMapping: true, Unsym: true, Header: true, Columns: true, Folded: true}
 
 func genMem(t *rapid.T) *memCase {
